@@ -737,3 +737,55 @@ def numexamples(repo):
     res.samples = [f"{len(examples)} documented literals ({sum(1 for _, b in examples if b)} forbidden)"]
     res.analysed = [TOK, LANGREF]
     return res
+
+
+def reservedprefix(repo):
+    """R-RESERVEDPREFIX (C10/C12): names with the compiler's own prefixes (`emboss_reserved...`, `EmbossReserved...`,
+    `EMBOSS_RESERVED...`) are classified BadWord so that no user name can collide with a synthesized one
+    (`emboss_reserved_anonymous_field_1`, `emboss_reserved_local_*`).  For every BadWord pattern that begins with a
+    literal prefix and every name-class pattern (SnakeWord, ShoutyWord, CamelWord): each string prefix+tail (tails up to
+    length 4 over one representative per character class) that the name pattern matches in full is matched in full by
+    the reserved pattern too -- the reserved pattern comes first in the table, so equal length means BadWord."""
+    import itertools
+    res = RuleResult("R-RESERVEDPREFIX")
+    lits, regs = G.tokenizer_tables(repo)
+    import re._parser as sp
+    reserved = []
+    for pat, sym, _ in regs:
+        if sym != "BadWord":
+            continue
+        try:
+            parsed = sp.parse(pat)
+        except re.error as e:
+            raise AnalysisError(f"tokenizer pattern {pat!r}: {e}")
+        prefix = ""
+        for op, arg in parsed:
+            if str(op) == "LITERAL":
+                prefix += chr(arg)
+            else:
+                break
+        if len(prefix) >= 6:
+            reserved.append((pat, prefix))
+    if len(reserved) < 3:
+        raise AnalysisError(f"tokenizer: reserved-prefix BadWord patterns found: {reserved}")
+    names = [(pat, sym) for pat, sym, _ in regs if sym in _NAME_CLASSES.values()]
+    if len(names) < 3:
+        raise AnalysisError("tokenizer: name-class patterns not found")
+    tails = ["".join(t) for n in range(0, 5) for t in itertools.product("AZaz09_", repeat=n)]
+    order = [pat for pat, _, _ in regs]
+    for rpat, prefix in reserved:
+        rrx = re.compile(rpat)
+        for npat, sym in names:
+            res.instances += 1
+            nrx = re.compile(npat)
+            if order.index(rpat) > order.index(npat):
+                res.add(f"{TOK}|{prefix}|{sym}|order", f"the reserved pattern `{rpat}` comes after the {sym} pattern: ties go to {sym}", TOK)
+                continue
+            bad = next((prefix + t for t in tails if nrx.fullmatch(prefix + t) and not rrx.fullmatch(prefix + t)), None)
+            if bad is not None:
+                res.add(f"{TOK}|{prefix}|{sym}", f"`{bad}` starts with the reserved prefix but the reserved pattern `{rpat}` does not match all "
+                        f"of it, so the longer {sym} match wins and the word is an ordinary name: user definitions can collide with names the "
+                        "compiler synthesizes", TOK)
+    res.samples = [f"{p}: prefix {pre}" for p, pre in reserved]
+    res.analysed = [TOK]
+    return res
